@@ -181,10 +181,13 @@ pub fn j_float(ts: TimeScale, c: i128, out: &mut Local) {
     });
     let args = vec![scale_name(ts).to_string(), enc(c)];
     match r {
-        Ok((s, d, _h)) => {
+        Ok((s, d, h)) => {
             let (ok1, d1) = within_ulps(s, want, NS_S, 8, 1.0);
             let (ok2, d2) = within_ulps(d, want, NS_DAY, 8, 1.0 / 86_400.0);
-            if ok1 && ok2 {
+            let (ok3, _) = within_ulps(h, want, 3600 * NS_S, 10, 1.0 / 3600.0);
+            if !ok3 {
+                out.viol("c05.float", format!("off,{},hours", scale_name(ts)), args, format!("{want} ns"), format!("{h:e} h"));
+            } else if ok1 && ok2 {
                 out.ok(2, want < 0, ts as u64);
                 out.metric_max("float_view_max_ulps", d1.max(d2));
             } else {
@@ -269,7 +272,10 @@ pub fn run(rep: &mut Report) {
     });
     sweep(rep, "c05.consts", 26, |i, out| j_consts(i, out));
     sweep(rep, "c05.refdate", 6, |i, out| j_refdate(UNIFORM[i as usize], out));
-    sweep(rep, "c05.float", n * 6, |i, out| j_float(UNIFORM[(i % 6) as usize], sub[(i / 6) as usize], out));
+    // float views on the full TAI lattice (sub-microsecond offsets round every anchor included)
+    let fl_lat = &els[0];
+    let nf = fl_lat.len() as u64;
+    sweep(rep, "c05.float", nf * 6, |i, out| j_float(UNIFORM[(i % 6) as usize], fl_lat[(i / 6) as usize], out));
     let depth = if deep { 5 } else { 4 };
     let mut inits = vec![];
     for (si, _) in UNIFORM.iter().enumerate() {
